@@ -665,3 +665,101 @@ Proof.
   apply Forall_forall. intros k Hk. unfold in_range in Hr. rewrite forallb_forall in Hr.
   specialize (Hr k Hk). lia.
 Qed.
+
+(* ------------------------------------------------------------------ Session.sort_on onto the same group *)
+Lemma off_perm (a b:list (list Z)) : Permutation a b -> off a = off b.
+Proof. unfold off, lens. induction 1; cbn [map sumZ]; lia. Qed.
+
+Lemma with_body_same f : with_body f (fbody f) = f.
+Proof. destruct f; reflexivity. Qed.
+
+Lemma len_gather {A} (d:A) l ps : len (gather d l ps) = len ps.
+Proof. unfold gather, len. rewrite map_length. reflexivity. Qed.
+
+Definition sort_on_col (f:field) (ps:list Z) : res field :=
+  do r <- field_apply_index f ps None false;
+  do b <- match fbody f, fbody (r_ret r) with
+          | BIdx i v, BIdx di dv => do i' <- h5_assign_all i di; do v' <- h5_assign_all v dv; Ok (BIdx i' v')
+          | BDat d, BDat dd => do d' <- h5_assign_all d dd; Ok (BDat d')
+          | _, _ => Raise E_Other
+          end;
+  Ok (with_body f b).
+
+Lemma sort_on_col_ok f ps n :
+  wf_body (fbody f) -> field_len f = n -> 0 <= n -> Permutation ps (iota 0 (Z.to_nat n)) ->
+  sort_on_col f ps
+  = Ok (if n =? 0 then f else mkField (fmeta f) (fwr f) (select_body (fbody f) ps)).
+Proof.
+  intros Hwf Hl Hn Hp.
+  assert (Hlen : len ps = n).
+  { unfold len. rewrite (Permutation_length Hp), iota_length. lia. }
+  assert (Hr : in_range n ps = true).
+  { unfold in_range. apply forallb_forall. intros x Hx. eapply Permutation_in in Hx; [|exact Hp].
+    apply iota_In in Hx. lia. }
+  unfold sort_on_col. rewrite field_index_correct; [|exact Hwf|rewrite Hl; exact Hr|reflexivity].
+  rewrite deliver_new by apply select_kind. cbn [bind r_ret fbody].
+  destruct f as [mt w b]. cbn [fbody fmeta fwr] in *. unfold field_len in Hl. cbn [fbody] in Hl.
+  unfold with_body. cbn [fmeta fwr].
+  destruct Hwf as [d| |cs].
+  - rewrite dat_select. unfold h5_assign_all. rewrite len_gather, Hlen, Hl, Z.eqb_refl. cbn [bind].
+    destruct (n =? 0) eqn:E; [|reflexivity].
+    apply Z.eqb_eq in E. rewrite E in Hl, Hlen. apply len_0_nil in Hl. apply len_0_nil in Hlen. subst. reflexivity.
+  - cbn in Hl. subst n. cbn in Hp. apply Permutation_sym, Permutation_nil in Hp. subst ps. reflexivity.
+  - assert (Hcs : len cs = n).
+    { rewrite len_psums in Hl. unfold lens in Hl. unfold len in *. rewrite map_length in Hl. lia. }
+    rewrite idx_select. unfold h5_assign_all.
+    assert (E1 : len (psums (lens cs)) = len (psums (lens (gather [] cs ps)))).
+    { rewrite !len_psums. unfold lens, len. rewrite !map_length. unfold gather. rewrite map_length.
+      unfold len in Hcs, Hlen. lia. }
+    assert (E2 : len (concat cs) = len (concat (gather [] cs ps))).
+    { rewrite !len_concat. symmetry. apply off_perm. apply sort_multiset_preserved.
+      replace (length cs) with (Z.to_nat n) by (unfold len in Hcs; lia). exact Hp. }
+    rewrite E1, E2, !Z.eqb_refl. cbn [bind].
+    destruct (n =? 0) eqn:E; [|reflexivity].
+    apply Z.eqb_eq in E. rewrite E in Hcs, Hlen. apply len_0_nil in Hcs. apply len_0_nil in Hlen. subst. reflexivity.
+Qed.
+
+Lemma sort_on_same_ok ps n : forall cols,
+  frame_ok n cols = true -> 0 <= n -> Permutation ps (iota 0 (Z.to_nat n)) ->
+  sort_on_same cols ps
+  = Ok (map (fun p:(Z * field) * (Z * field) => if field_len (snd (fst p)) =? 0 then fst p else snd p)
+            (combine cols (map (sel_col ps None) cols))).
+Proof.
+  induction cols as [|[name f] t IH]; intros Hok Hn Hp; cbn [sort_on_same map combine]; [reflexivity|].
+  destruct (frame_ok_in n ((name, f) :: t) (name, f) Hok (or_introl eq_refl)) as [Hwf Hl]. cbn [snd] in *.
+  pose proof (sort_on_col_ok f ps n Hwf Hl Hn Hp) as Hc. unfold sort_on_col in Hc.
+  destruct (field_apply_index f ps None false) as [r| | |]; cbn [bind] in Hc |- *; try discriminate.
+  destruct (match fbody f with
+            | BIdx i v => match fbody (r_ret r) with
+                          | BIdx di dv => do i' <- h5_assign_all i di; do v' <- h5_assign_all v dv; Ok (BIdx i' v')
+                          | BDat _ => Raise E_Other end
+            | BDat d => match fbody (r_ret r) with
+                        | BIdx _ _ => Raise E_Other
+                        | BDat dd => do d' <- h5_assign_all d dd; Ok (BDat d') end
+            end) as [b| | |]; cbn [bind] in Hc |- *; try discriminate.
+  rewrite IH; [|unfold frame_ok in *; cbn [forallb] in Hok; apply andb_prop in Hok; apply Hok|exact Hn|exact Hp].
+  cbn [bind fst snd]. injection Hc as Hc'. rewrite Hc', Hl.
+  destruct (n =? 0); unfold sel_col; cbn [fst snd]; reflexivity.
+Qed.
+
+Theorem session_sort_on_same_correct cols keys r :
+  spec_sort_on cols keys None = Some r -> session_sort_on cols keys None = Ok r.
+Proof.
+  unfold spec_sort_on, spec_sort. set (n := nrows cols).
+  destruct keys as [|k0 kt] eqn:Eby; [discriminate|]. rewrite <- Eby.
+  destruct (key_columns cols keys) as [kcs|] eqn:Hk; [|rewrite Eby; discriminate].
+  replace (match keys with [] => None | _ :: _ => if frame_ok n cols && nodup_names cols && dest_ok cols None
+             then Some (spec_select cols (lexsort_perm (rows_of n kcs)) None) else None end)
+    with (if frame_ok n cols && nodup_names cols && dest_ok cols None
+          then Some (spec_select cols (lexsort_perm (rows_of n kcs)) None) else None : option (frame * option frame))
+    by (rewrite Eby; reflexivity).
+  destruct (frame_ok n cols) eqn:Hok; [|discriminate].
+  destruct (nodup_names cols) eqn:Hnd; [|discriminate].
+  destruct (dest_ok cols None) eqn:Hdst; [|discriminate].
+  cbn [andb spec_select]. intros H. inversion H; subst r; clear H.
+  assert (Hne : keys <> []) by (rewrite Eby; discriminate).
+  destruct (sorted_index_correct cols keys kcs Hne Hk Hok) as [fields [Hr [Hs Hn]]]. fold n in Hs, Hn.
+  unfold session_sort_on. rewrite Hr. cbn [bind]. rewrite Hs. cbn [bind].
+  rewrite (sort_on_same_ok _ n cols Hok Hn); [reflexivity|].
+  unfold lexsort_perm. rewrite <- (rows_of_length n kcs). apply argsort_perm.
+Qed.
